@@ -252,7 +252,7 @@ func c06Case(t *T) {
 			paths = append(paths, probe.Path+"/")
 		}
 		for _, path := range paths {
-			for _, method := range AllMethods {
+			for _, method := range append(append([]string{}, AllMethods...), "PURGE", "LINK") {
 				want, ok := refResolve(tb, cfg, method, path)
 				if !ok {
 					continue
